@@ -64,7 +64,7 @@ def o_unknown_spi_noop(h):
     return out
 
 
-ORACLES = [CP.o_table_exact, o_routing, o_status, o_unknown_spi_noop, CP.o_no_escape]
+ORACLES = [CP.o_table_exact, o_routing, CP.o_expire_to_owner, o_status, o_unknown_spi_noop, CP.o_no_escape]
 VARIANTS = [{'ike_lifetime': 40, 'dpd': 500}, {'ike_lifetime': 60, 'ike_lifetime_b': 5000, 'dpd': 25, 'mode': 'tunnel', 'ip_proto': 'any'},
             {'dh': ['19', '20'], 'dh_b': ['20', '19'], 'ike_lifetime': 50, 'ike_lifetime_b': 5000, 'dpd': 1000}, {}]
 
@@ -137,6 +137,10 @@ def run(ctx):
     S.campaign(ctx, res, ORACLES, ctx.scale(80, 1000), ctx.scale(45, 90), variants=VARIANTS, dup=0.3, prepare=prepare,
                per_history=spi_games)
     directed_rekey_dups(ctx, res)
+    # an authentic peer that says unusual things (failing answers to an IKE_SA rekey, DELETE games): the table stays exact and
+    # everything the kernel holds has an owner in it
+    import rogue
+    rogue.campaign(ctx, res, ctx.scale(10, 150), 50, oracles=[CP.o_table_exact, CP.o_no_escape, CP.o_sad_equals_tracked])
     return res
 
 
